@@ -56,7 +56,7 @@ def pgDecodeText (s : Setting) (data : Bytes) : Option Bytes :=
     match Bytea.decodeEscaped data with
     | .ok d => some d
     | .error .octal => some data
-    | .error .hex => none
+    | .error .hex => none           -- hex syntax error after "\\x": the decoder returns the error (the row fails)
   else some data
 
 /-- `PgSQLDataDecoderProcessor.OnColumn`: `none` = error -/
@@ -100,8 +100,8 @@ def pgEncodeOnFail (s : Setting) (binary : Bool) (d64 : Default64) : Except Res 
 
 /-- `PgSQLDataEncoderProcessor.OnColumn` -/
 def pgEncode (s : Setting) (binary decrypted : Bool) (saved : Option Bytes) (d64 : Default64) (data : Bytes) : Res :=
-  -- empty data: give back the value saved by the decoder, if any (after the `fix:` for "\\x")
-  if data.isEmpty then .value (saved.getD data) false else
+  -- empty data: an untyped column gets back the value saved by the decoder, if any (after the `fix:` for "\\x")
+  if data.isEmpty then .value (if s.dataType.isNone then saved.getD data else data) false else
   match s.dataType with
   | some .int32 | some .int64 =>
     let bits := bitsOf (s.dataType.getD .int32)
